@@ -182,7 +182,8 @@ def refKnown (c : GenCell) : Bool :=
 
 /-- the generator emitted no call for some rule of the tag -/
 def dropsRule (c : GenCell) : Bool :=
-  c.rules.any fun r => r != .required && !(chainRules c.ctor c.chain).contains r
+  c.rules.any fun r => r != .required && !(chainRules c.ctor c.chain).contains r &&
+    !(r == .nonempty && (chainRules c.ctor c.chain).contains (.min 1))      -- `nonempty` is written `.Min(1)`
 
 /-- `.Optional()` on a `required` pointer field: the generated schema accepts nil -/
 def optionalOnRequired (c : GenCell) : Bool :=
